@@ -75,6 +75,10 @@ type State struct {
 	StdinPipe bool
 	Visible   bool
 	Version   map[string]uint64
+	// ReadDelay makes every read(2) of a file whose name starts with
+	// ReadDelayPrefix take that much virtual time (a slow disk / a huge file).
+	ReadDelay       time.Duration
+	ReadDelayPrefix string
 	// SeekEnd records, per file name, the offset returned by the first
 	// Seek(0, io.SeekEnd) on it (where a follow began).
 	SeekEnd map[string]int64
@@ -218,6 +222,9 @@ func (f *File) Read(p []byte) (int, error) {
 		return n, nil
 	}
 	visible("fsread", f.name)
+	if S.ReadDelay > 0 && vrt.W != nil && strings.HasPrefix(f.name, S.ReadDelayPrefix) {
+		vrt.Sleep("slow-read", S.ReadDelay)
+	}
 	return f.f.Read(p)
 }
 
